@@ -375,10 +375,52 @@ Definition all_delivered (ops : list cop) : list vote :=
 Definition spec_run (own : list N) (ops : list cop) : ostate :=
   fold_left (spec_op own (all_delivered ops)) ops (mkO [] (TL []) false false [] [] None [] true false 0 (TL [])).
 
+(* ---------- part 2: the REAL pseudonode (zz_verif_c02p_test.go) ----------
+     (c02p mode expected (event ...) tag)    event = vote | signal_ok | signal_err | closed
+   persistStateDone is signalled by the harness (signal_* is recorded before the channel is touched);
+   model = one request with [expected] votes through the wrapper: [FEv; FWrite ok; FRelease];
+   spec_ok = no vote before signal_ok, no vote after signal_err, the task does not finish before the
+   signal unless it has nothing to release, the output channel is closed in the end. *)
+Inductive pev := PVote | PSigOk | PSigErr | PClosed | POther.
+Definition p_pev (t : term) : pev :=
+  match t with
+  | TS "vote" => PVote | TS "signal_ok" => PSigOk | TS "signal_err" => PSigErr | TS "closed" => PClosed
+  | _ => POther
+  end.
+Record c02p_case := mkC02P { pp_expected : N; pp_evs : list pev }.
+Definition p_c02p (t : term) : option c02p_case :=
+  match t with
+  | TL [TS "c02p"; TS _; n; TL evs; TS _] => olet n <- as_N n; Some (mkC02P n (map p_pev evs))
+  | _ => None
+  end.
+
+Definition seqN (n : N) : list N := map N.of_nat (seq 0 (N.to_nat n)).
+Definition p_model_released (n : N) (ok : bool) : N :=
+  N.of_nat (List.length
+    (f_released unit N N
+       (fold_left (fstep unit N N tt (fun s k => (s, seqN k)) (fun s => s))
+                  [FEv n; FWrite ok; FRelease] (f_init unit N N tt)))).
+
+(* (signal state 0 none / 1 ok / 2 err, closed, votes seen, rule ok) *)
+Fixpoint p_walk (expected : N) (sig : N) (closed : bool) (votes : N) (ok : bool) (l : list pev) : N * bool * N * bool :=
+  match l with
+  | [] => (sig, closed, votes, ok)
+  | PVote :: t => p_walk expected sig closed (votes + 1) (ok && (sig =? 1) && negb closed) t
+  | PSigOk :: t => p_walk expected 1 closed votes (ok && (sig =? 0)) t
+  | PSigErr :: t => p_walk expected 2 closed votes (ok && (sig =? 0)) t
+  | PClosed :: t => p_walk expected sig true votes (ok && negb closed && (negb (sig =? 0) || (expected =? 0))) t
+  | POther :: t => p_walk expected sig closed votes false t
+  end.
+
+Definition check_p (c : c02p_case) : term :=
+  let '(sig, closed, votes, ok) := p_walk (pp_expected c) 0 false 0 true (pp_evs c) in
+  let model := p_model_released (pp_expected c) (sig =? 1) in
+  verdict (ok && closed) (votes =? model) (0 <? pp_expected c) (TL [TS "pseudonode"; tn model]).
+
 (* ---------- the check ---------- *)
 Definition check (t : term) : term :=
   match p_c02 t with
-  | None => v_parse
+  | None => match p_c02p t with Some c => check_p c | None => v_parse end
   | Some c =>
       let o := spec_run (k_own c) (k_ops c) in
       let r := replay (k_pm c) (k_r0 c) (k_own c) (k_ops c) in
